@@ -5,9 +5,10 @@
 (* the public model the parser exposes, or the typed setup error.          *)
 (* Follows group.go:202-350 and command.go:155-271: fields are processed   *)
 (* in order, the first error met wins, duplicate names are looked for at   *)
-(* the end of each scanned unit (a nested group alone, without its         *)
-(* namespace; then the whole group tree with namespaces; a command's tree  *)
-(* separately).                                                            *)
+(* the end of each scanned unit (a nested group's own tree, without its    *)
+(* namespace but with those of the groups below it; then the whole tree;   *)
+(* a command's tree separately).  Groups nest to any depth, commands hold  *)
+(* groups, positionals and sub-commands of their own.                      *)
 (*   field == [name, ftype, tag, sub]                                      *)
 (*   ftype \in {"bool","bools","pbool","func0","string","int","strs","map",*)
 (*              "group","command","posargs"}                               *)
@@ -34,18 +35,37 @@ DupIn(opts, longs) ==
 
 WithNs(ns, delim, long) == IF long = E THEN E ELSE IF ns = E THEN long ELSE ns \o delim \o long
 
-\* The declaration: top-level option fields, at most one nested group field, at most one command field, at most one
-\* positional struct, in the order of `fields`.  delim: the namespace delimiter ("." unless changed after construction).
-BuildModel(fields) ==
+IsStruct(f) == f.ftype \in {"group", "command", "posargs"}
+Prefixed(ns, delim, o) == [o EXCEPT !.rel = WithNs(ns, delim, @)]
+EnvPrefixed(ens, o) == [o EXCEPT !.relEnv = IF @ = E \/ ens = E THEN @ ELSE ens \o <<95>> \o @]
+
+\* The fields of one struct, scanned as the data of a group (group.go scanStruct with the handler of that level).
+\*   cmdLevel   TRUE for the parser's top-level struct and for a command's struct: `positional-args' and `command' struct
+\*              fields are recognised there (command.go scanSubcommandHandler); inside a nested group only `group' is
+\*   result     err / grey; own: the options of this group, in field order; deep: the options of the groups nested in it,
+\*              pre-order, each with its long name and env key RELATIVE to this struct (rel, relEnv: the namespaces of the
+\*              nested groups applied, this group's own not - it is assigned only after its scan returned);
+\*              groups: the nested group records, pre-order; cmds / args / argsReq: what a command level collected
+\* Fields are processed in order and the first error met wins.  A nested group (and a command) ends its own scan with the
+\* duplicate test over its tree, which sees the namespaces of the groups strictly below it.
+Unit0 == [err |-> "none", grey |-> FALSE, own |-> <<>>, deep |-> <<>>, groups |-> <<>>, cmds |-> <<>>, args |-> <<>>, argsReq |-> FALSE]
+TreeOpts(u) == u.own \o u.deep
+DupTree(u) == LET all == TreeOpts(u) IN DupIn(all, [i \in 1..Len(all) |-> all[i].rel])
+
+RECURSIVE ScanFields(_, _)
+ScanFields(fields, cmdLevel) ==
   LET delim == <<DOT>>
       step(acc, k) ==
         IF acc.err # "none" THEN acc
         ELSE LET f == fields[k]
                  sc == ScanTag(f.tag)
+                 \* a struct field that also carries option names becomes an option of struct type after it was dived into: not generated
+                 alsoOpt == Get(sc.kv, kLong) # E \/ Get(sc.kv, kShort) # E \/ Get(sc.kv, kIniName) # E
              IN IF sc.unspec THEN [acc EXCEPT !.err = "unspec"]
                 ELSE IF ~sc.ok THEN [acc EXCEPT !.err = "ErrTag"]
                 ELSE IF Get(sc.kv, kNoFlag) # E THEN acc
-                ELSE IF f.ftype \in {"group", "command", "posargs"} /\ Get(sc.kv, kPositionalArgs) # E THEN
+                ELSE IF IsStruct(f) /\ alsoOpt THEN [acc EXCEPT !.grey = TRUE]
+                ELSE IF IsStruct(f) /\ cmdLevel /\ Get(sc.kv, kPositionalArgs) # E THEN
                      LET subTags == [i \in 1..Len(f.sub) |-> ScanTag(f.sub[i].tag)]
                          bad == FirstIdx([i \in 1..Len(f.sub) |-> i], LAMBDA i : ~subTags[i].ok) IN
                      IF bad # 0 THEN [acc EXCEPT !.err = IF subTags[bad].unspec THEN "unspec" ELSE "ErrTag"]
@@ -55,34 +75,40 @@ BuildModel(fields) ==
                                              rq == ReqOf(Get(kv, kRequired)) IN
                                          [name |-> IF nm = E THEN f.sub[i].name ELSE nm, desc |-> Get(kv, kDescription), req |-> rq.req, max |-> rq.max]],
                                       !.grey = @ \/ \E i \in 1..Len(f.sub) : ~ReqOf(Get(subTags[i].kv, kRequired)).spec,
-                                      !.argsReq = @ \/ Get(sc.kv, kRequired) # E]
-                ELSE IF f.ftype \in {"group", "command", "posargs"} /\ Get(sc.kv, kCommand) # E THEN
-                     \* a command: its own option fields form a separate tree
-                     LET so == OptsOf(f.sub, <<>>) IN
-                     IF so.err # "none" THEN [acc EXCEPT !.err = so.err]
-                     ELSE IF DupIn(so.opts, [i \in 1..Len(so.opts) |-> so.opts[i].long]) THEN [acc EXCEPT !.err = "ErrDuplicatedFlag"]
-                     ELSE [acc EXCEPT !.cmds = Append(@, [name |-> Get(sc.kv, kCommand), desc |-> Get(sc.kv, kDescription), longDesc |-> Get(sc.kv, kLongDescription),
+                                      !.argsReq = @ \/ (f.sub # <<>> /\ Get(sc.kv, kRequired) # E)]
+                ELSE IF IsStruct(f) /\ cmdLevel /\ Get(sc.kv, kCommand) # E THEN
+                     \* a command: its struct is a tree of its own (options, groups, positionals, sub-commands), tested for duplicates alone
+                     LET u == ScanFields(f.sub, TRUE) IN
+                     IF u.err # "none" THEN [acc EXCEPT !.err = u.err]
+                     ELSE IF DupTree(u) THEN [acc EXCEPT !.err = "ErrDuplicatedFlag", !.grey = @ \/ u.grey]
+                     ELSE [acc EXCEPT !.grey = @ \/ u.grey,
+                                      !.cmds = Append(@, [name |-> Get(sc.kv, kCommand), desc |-> Get(sc.kv, kDescription), longDesc |-> Get(sc.kv, kLongDescription),
                                                           subOpt |-> Get(sc.kv, kSubOptional) # E, aliases |-> GetMany(sc.kv, kAlias), hidden |-> Get(sc.kv, kHidden) # E,
-                                                          opts |-> [i \in 1..Len(so.opts) |-> [so.opts[i] EXCEPT !.long = @] @@ [nsLong |-> so.opts[i].long, envKey |-> so.opts[i].env]]])]
-                ELSE IF f.ftype \in {"group", "command", "posargs"} /\ Get(sc.kv, kGroup) # E THEN
-                     LET so == OptsOf(f.sub, <<>>)
+                                                          opts |-> LET all == TreeOpts(u) IN [i \in 1..Len(all) |-> all[i] @@ [nsLong |-> all[i].rel, envKey |-> all[i].relEnv]],
+                                                          groups |-> u.groups, nsub |-> Len(u.cmds), nargs |-> Len(u.args)])]
+                ELSE IF IsStruct(f) /\ Get(sc.kv, kGroup) # E THEN
+                     LET u == ScanFields(f.sub, FALSE)
                          ns == Get(sc.kv, kNamespace)
                          ens == Get(sc.kv, kEnvNamespace) IN
-                     IF so.err # "none" THEN [acc EXCEPT !.err = so.err]
-                     ELSE IF DupIn(so.opts, [i \in 1..Len(so.opts) |-> so.opts[i].long]) THEN [acc EXCEPT !.err = "ErrDuplicatedFlag"]     \* inside the group alone
-                     ELSE [acc EXCEPT !.groups = Append(@, [desc |-> Get(sc.kv, kGroup), longDesc |-> Get(sc.kv, kDescription), ns |-> ns, envNs |-> ens,
-                                                            hidden |-> Get(sc.kv, kHidden) # E]),
-                                      !.sub = @ \o [i \in 1..Len(so.opts) |-> so.opts[i] @@ [nsLong |-> WithNs(ns, delim, so.opts[i].long),
-                                                                                             envKey |-> IF so.opts[i].env = E THEN E ELSE IF ens = E THEN so.opts[i].env ELSE ens \o <<95>> \o so.opts[i].env]]]
-                ELSE IF f.ftype \in {"group", "command", "posargs"} THEN [acc EXCEPT !.grey = TRUE]       \* an untagged struct field: flattened by the code; not generated
+                     IF u.err # "none" THEN [acc EXCEPT !.err = u.err]
+                     ELSE IF DupTree(u) THEN [acc EXCEPT !.err = "ErrDuplicatedFlag", !.grey = @ \/ u.grey]     \* inside the group's own tree, without its namespace
+                     ELSE [acc EXCEPT !.grey = @ \/ u.grey,
+                                      !.groups = @ \o <<[desc |-> Get(sc.kv, kGroup), longDesc |-> Get(sc.kv, kDescription), ns |-> ns, envNs |-> ens,
+                                                         hidden |-> Get(sc.kv, kHidden) # E]>> \o u.groups,
+                                      !.deep = @ \o LET all == TreeOpts(u) IN [i \in 1..Len(all) |-> EnvPrefixed(ens, Prefixed(ns, delim, all[i]))]]
+                ELSE IF IsStruct(f) THEN [acc EXCEPT !.grey = TRUE]       \* a struct field no handler takes: flattened by the code; not generated
                 ELSE LET b == BuildOpt(f) IN
                      IF b.err # "none" THEN [acc EXCEPT !.err = b.err]
-                     ELSE IF b.isOpt THEN [acc EXCEPT !.top = Append(@, b.opt @@ [nsLong |-> b.opt.long, envKey |-> b.opt.env])] ELSE acc
-      r == FoldLeft(step, [err |-> "none", top |-> <<>>, sub |-> <<>>, groups |-> <<>>, cmds |-> <<>>, args |-> <<>>, argsReq |-> FALSE, grey |-> FALSE],
-                    [k \in 1..Len(fields) |-> k])
-      all == r.top \o r.sub
+                     ELSE IF b.isOpt THEN [acc EXCEPT !.own = Append(@, b.opt @@ [rel |-> b.opt.long, relEnv |-> b.opt.env])] ELSE acc
+  IN FoldLeft(step, Unit0, [k \in 1..Len(fields) |-> k])
+
+\* The declaration handed to NewParser: the top-level struct is the data of the "Application Options" group of the root command.
+BuildModel(fields) ==
+  LET r == ScanFields(fields, TRUE)
+      all == TreeOpts(r)
   IN IF r.err # "none" THEN [err |-> r.err, grey |-> r.grey, model |-> NoModel]
-     ELSE IF DupIn(all, [i \in 1..Len(all) |-> all[i].nsLong]) THEN [err |-> "ErrDuplicatedFlag", grey |-> r.grey, model |-> NoModel]
+     ELSE IF DupTree(r) THEN [err |-> "ErrDuplicatedFlag", grey |-> r.grey, model |-> NoModel]
      ELSE [err |-> "none", grey |-> r.grey,
-           model |-> [opts |-> all, groups |-> r.groups, cmds |-> r.cmds, args |-> r.args, argsReq |-> r.argsReq]]
+           model |-> [opts |-> [i \in 1..Len(all) |-> all[i] @@ [nsLong |-> all[i].rel, envKey |-> all[i].relEnv]],
+                      groups |-> r.groups, cmds |-> r.cmds, args |-> r.args, argsReq |-> r.argsReq]]
 =============================================================================
